@@ -91,6 +91,18 @@ func c08Conflict(a, b c08Task) bool {
 	return false
 }
 
+// r reads (exactly Read) a key that w needs more than read access to
+func c08ReaderOfWriter(r, w c08Task) bool {
+	for _, x := range r.Keys {
+		for _, y := range w.Keys {
+			if x.K == y.K && x.P == uint8(state.Read) && moreThanRead(y.P) {
+				return true
+			}
+		}
+	}
+	return false
+}
+
 func c08StateKeys(t c08Task) state.Keys {
 	ks := make(state.Keys, len(t.Keys))
 	for _, k := range t.Keys {
@@ -128,11 +140,11 @@ func c08GenTasks(rt *rapid.T, free bool) []c08Task {
 	nk := rapid.IntRange(1, 6).Draw(rt, "nkeys")
 	failAt, stopAt := -1, -1
 	switch rapid.IntRange(0, 9).Draw(rt, "errkind") {
-	case 0, 1:
+	case 7, 8:
 		failAt = rapid.IntRange(0, n-1).Draw(rt, "failAt")
-	case 2:
+	case 9:
 		stopAt = rapid.IntRange(0, n-1).Draw(rt, "stopTask")
-	case 3:
+	case 6:
 		failAt = rapid.IntRange(0, n-1).Draw(rt, "failAt")
 		stopAt = rapid.IntRange(0, n-1).Draw(rt, "failAt2") // second failing task
 	}
@@ -180,9 +192,9 @@ func c08Gen(rt *rapid.T) c08Case {
 	for i := 0; i < nops; i++ {
 		var op c08Op
 		switch k := rapid.IntRange(0, 19).Draw(rt, "opk"); {
-		case k < 8:
+		case k < 6:
 			op.Op = "enq"
-		case k < 14:
+		case k < 13:
 			op = c08Op{Op: "rel", I: rapid.IntRange(0, 7).Draw(rt, "i")}
 		case k < 19:
 			op = c08Op{Op: "relenq", I: rapid.IntRange(0, 7).Draw(rt, "i"), Y: rapid.IntRange(0, 3).Draw(rt, "y")}
@@ -228,12 +240,16 @@ type c08Harness struct {
 	errs    []error
 	shadow  []int // free mode: one plain word per key
 	spinSnk atomic.Int64
+	dup     atomic.Int32  // id+1 of a task whose body was entered a second time
+	never   chan struct{} // never closed
 }
 
 func (h *c08Harness) gatedBody(id int) func() error {
 	t := h.c.Tasks[id]
 	return func() error {
-		h.starts[id].Add(1)
+		if h.starts[id].Add(1) > 1 {
+			h.secondStart(id)
+		}
 		h.state[id].CompareAndSwap(0, 1)
 		h.log.rec("start", id, 0, "")
 		<-h.gates[id]
@@ -248,6 +264,16 @@ func (h *c08Harness) gatedBody(id int) func() error {
 		}
 		return nil
 	}
+}
+
+// secondStart: the body of a task was entered twice. That is already a violation;
+// the body never returns, because letting the executor account a task twice makes
+// it panic in its own goroutines (negative WaitGroup counter, send on closed
+// channel), which would kill the process before the verdict is written.
+func (h *c08Harness) secondStart(id int) {
+	h.log.rec("start", id, 0, "second")
+	h.dup.CompareAndSwap(0, int32(id+1))
+	<-h.never
 }
 
 func (h *c08Harness) touchShadow(t c08Task, id int) {
@@ -266,8 +292,10 @@ func (h *c08Harness) touchShadow(t c08Task, id int) {
 func (h *c08Harness) freeBody(id int) func() error {
 	t := h.c.Tasks[id]
 	return func() error {
+		if h.starts[id].Add(1) > 1 {
+			h.secondStart(id)
+		}
 		h.touchShadow(t, id)
-		h.starts[id].Add(1)
 		h.state[id].CompareAndSwap(0, 1)
 		h.log.rec("start", id, 0, "")
 		x := int64(id)
@@ -355,10 +383,14 @@ func c08Run(c *c08Case, st *vstat.Stats) error {
 	h.release = make([]bool, n)
 	h.errs = make([]error, n)
 	h.shadow = make([]int, 8)
+	h.never = make(chan struct{})
 	for i := range h.gates {
 		h.gates[i] = make(chan struct{})
 		h.errs[i] = fmt.Errorf("task %d failed", i)
 	}
+	c.Observed = nil
+	noteInflight(c)
+	race0, _ := raceReports()
 	obs := &c08Obs{}
 	c.Observed = obs
 	deadline := time.Now().Add(caseHardLimit)
@@ -452,8 +484,19 @@ func c08Run(c *c08Case, st *vstat.Stats) error {
 		return fmt.Errorf(format, args...)
 	}
 
+	dupErr := func() error {
+		if d := h.dup.Load(); d != 0 {
+			return fail("task %d started twice", d-1)
+		}
+		return nil
+	}
+	isDup := func() bool { return h.dup.Load() != 0 }
+
 	if c.Mode == "gated" {
 		for _, op := range c.Ops {
+			if err := dupErr(); err != nil {
+				return err
+			}
 			switch op.Op {
 			case "enq":
 				if next >= n || !runReturned() {
@@ -476,13 +519,21 @@ func c08Run(c *c08Case, st *vstat.Stats) error {
 					continue
 				}
 				id := pl[op.I%len(pl)]
-				// reader released while a later writer on the same key is being enqueued
-				for _, x := range c.Tasks[id].Keys {
-					for _, y := range c.Tasks[next].Keys {
-						if x.K == y.K && !moreThanRead(x.P) && x.P != 0 && moreThanRead(y.P) {
-							handoff = true
+				if op.I >= 2 {
+					// bias: prefer a parked reader of a key the next task needs exclusively
+					var cand []int
+					for _, p := range pl {
+						if c08ReaderOfWriter(c.Tasks[p], c.Tasks[next]) {
+							cand = append(cand, p)
 						}
 					}
+					if len(cand) > 0 {
+						id = cand[op.I%len(cand)]
+					}
+				}
+				// reader released while a later writer on the same key is being enqueued
+				if c08ReaderOfWriter(c.Tasks[id], c.Tasks[next]) {
+					handoff = true
 				}
 				doRelease(id)
 				for y := 0; y < op.Y; y++ {
@@ -534,15 +585,19 @@ func c08Run(c *c08Case, st *vstat.Stats) error {
 		for next < n {
 			// a blocked Run can only be unblocked by releasing tasks
 			for !runReturned() {
+				p0 := h.log.progress.Load()
+				if err := dupErr(); err != nil {
+					return err
+				}
 				pl := h.parked()
 				if len(pl) > 0 {
 					doRelease(pl[0])
 					settleNow()
 					continue
 				}
-				out, sig := awaitOrHang(&h.log.progress, runReturned, func() bool { return len(h.parked()) == 0 }, markers, deadline)
+				out, sig := awaitOrHang(&h.log.progress, p0, func() bool { return runReturned() || isDup() }, func() bool { return len(h.parked()) == 0 }, markers, deadline)
 				if out == woHung {
-					return fail("deadlock: Run(task %d) never returned; every executor goroutine is blocked [%s]", next-1, sig)
+					return fail("deadlock: Run(task %d) never returned; every executor goroutine is blocked [%s]", next-1, prettySig(sig))
 				}
 				if out == woTimeout {
 					return errInconclusive("Run did not return within the hard limit")
@@ -554,15 +609,19 @@ func c08Run(c *c08Case, st *vstat.Stats) error {
 	}
 	// Wait may only be called once Run is no longer executing
 	for !runReturned() {
+		p0 := h.log.progress.Load()
+		if err := dupErr(); err != nil {
+			return err
+		}
 		pl := h.parked()
 		if len(pl) > 0 && c.Mode == "gated" {
 			doRelease(pl[0])
 			settleNow()
 			continue
 		}
-		out, sig := awaitOrHang(&h.log.progress, runReturned, func() bool { return len(h.parked()) == 0 && h.inFlight() == 0 }, markers, deadline)
+		out, sig := awaitOrHang(&h.log.progress, p0, func() bool { return runReturned() || isDup() }, func() bool { return len(h.parked()) == 0 && h.inFlight() == 0 }, markers, deadline)
 		if out == woHung {
-			return fail("deadlock: Run never returned; every executor goroutine is blocked [%s]", sig)
+			return fail("deadlock: Run never returned; every executor goroutine is blocked [%s]", prettySig(sig))
 		}
 		if out == woTimeout {
 			return errInconclusive("Run did not return within the hard limit")
@@ -580,8 +639,14 @@ func c08Run(c *c08Case, st *vstat.Stats) error {
 	})
 	dk := 0
 	for !waitDone.Load() {
+		if err := dupErr(); err != nil {
+			return err
+		}
 		if c.Mode == "gated" {
 			settleNow()
+		}
+		p0 := h.log.progress.Load() // read before looking for parked tasks
+		if c.Mode == "gated" {
 			if waitDone.Load() {
 				break
 			}
@@ -592,7 +657,7 @@ func c08Run(c *c08Case, st *vstat.Stats) error {
 			}
 		}
 		idle := func() bool { return len(h.parked()) == 0 && h.inFlight() == 0 }
-		out, sig := awaitOrHang(&h.log.progress, waitDone.Load, idle, markers, deadline)
+		out, sig := awaitOrHang(&h.log.progress, p0, func() bool { return waitDone.Load() || isDup() }, idle, markers, deadline)
 		if out == woHung {
 			ran := 0
 			for i := range h.starts {
@@ -600,7 +665,7 @@ func c08Run(c *c08Case, st *vstat.Stats) error {
 					ran++
 				}
 			}
-			return fail("deadlock: Wait never returned although no task is running or parked (%d of %d tasks ran); every executor goroutine is blocked [%s]", ran, n, sig)
+			return fail("deadlock: Wait never returned although no task is running or parked (%d of %d tasks ran); every executor goroutine is blocked [%s]", ran, n, prettySig(sig))
 		}
 		if out == woTimeout {
 			return errInconclusive("Wait did not return within the hard limit (no evidence of quiescence)")
@@ -608,6 +673,9 @@ func c08Run(c *c08Case, st *vstat.Stats) error {
 	}
 	// a short grace period so that a task wrongly started after Wait shows up
 	settle(&h.log.progress, nil)
+	if err := dupErr(); err != nil {
+		return err
+	}
 
 	evs := h.log.snapshot()
 	obs.Events = evs
@@ -700,6 +768,9 @@ func c08Run(c *c08Case, st *vstat.Stats) error {
 
 	if err := c08Oracle(c, evs, waitErr, h); err != nil {
 		return fail("%v", err)
+	}
+	if r1, p := raceReports(); r1 > race0 {
+		return fail("the race detector reported a data race while this case was running:\n%s", raceExcerpt(p, race0))
 	}
 	return nil
 }
